@@ -31,6 +31,20 @@ CHECKS = {
              'period; contraction systems must be solved within the default cap.',
         note='sweeps counted by tick(); contraction factor computed by the generator',
         ref='DESIGN.md 5/C11'),
+    'C03': dict(
+        technique='deterministic simulation: reduction on/off twin runs of seeded EQN sessions (skipped-fast-path '
+                  'configuration twin), trajectory comparison incl. k=0 with tight-tolerance confirmation pass',
+        text='The same seeded block is solved with the reduction switched on and off; trajectories must agree '
+             '(exactly at k=0). Sampling over alias/decorative/initial-condition structures.',
+        note='pure alias cycles excluded; numeric twin threshold with confirmation at tolerance 1e-13',
+        ref='DESIGN.md 5/C03'),
+    'C15': dict(
+        technique='deterministic simulation: steady-state pre-run on the deep copy, then one further period in an '
+                  'independent fresh solver from the installed state; copy-isolation snapshot check',
+        text='Temporal claim checked by actually advancing one more frozen period from whatever the search installed, '
+             'over seeded stable/drifting/oscillating dynamics of both signs; plus before/after isolation snapshot.',
+        note='within-period solves at 1e-12 so solver noise is far below the steady tolerance; lag gain <= 1.2',
+        ref='DESIGN.md 5/C15'),
 }
 
 NOT_APPLICABLE = [
